@@ -131,7 +131,7 @@ class WorldA(object):
         sched = scn["sched"]
         self.sim = Sim(rng, tape_in=tape_in,
                        quantum=sched.get("quantum", 2e-6),
-                       max_steps=scn.get("max_steps", 2_000_000),
+                       max_steps=scn.get("max_steps", 6_000_000),
                        horizon=scn.get("horizon", 120.0),
                        p_sync=sched.get("p_sync", 0.15),
                        p_line=sched.get("p_line", 0.0),
